@@ -248,9 +248,9 @@ func (root *Root) addTypes(types ...Type) error {
 			}
 			root.dirs.add(t)
 		} else {
-			if root.types.get(name) != nil {
-				// If a scalar, do not replace and do not complain.
-				if t.Rank() == rankScalar {
+			if exist := root.types.get(name); exist != nil {
+				// If a scalar is declared again, do not replace and do not complain.
+				if t.Rank() == rankScalar && exist.Rank() == rankScalar {
 					continue
 				}
 				return fmt.Errorf("%w: %s is already in the schema", ErrDuplicate, name)
